@@ -1,11 +1,15 @@
 package main
 
 import (
+	"bufio"
 	"bytes"
+	"encoding/binary"
 	"encoding/json"
 	"fmt"
+	"io"
 	"sort"
 	"strings"
+	"testing/iotest"
 
 	"github.com/janelia-flyem/dvid/datatype/common/labels"
 	"github.com/janelia-flyem/dvid/datatype/roi"
@@ -371,7 +375,88 @@ func runC18(c *Ctx) {
 		c.AskCmp("dvid.RLEs.UnmarshalBinary", "rle.unmarshal "+hx(mb), "ok "+runsStr(fromRLEs(back)))
 		c.Eval("runs "+rstr+"|"+bstr, true)
 	}
+	c18Streams(c)
 	c18Roi(c)
+}
+
+// c18Streams: the streaming decoder of sparse volumes (dvid.ReadRLEs, what a POSTed split volume goes through)
+// on streams of a few to several hundred runs, delivered by readers that hand the bytes out in pieces: whole,
+// buffered (4 KiB refills), half reads, one byte at a time, data together with EOF.  The decoded runs must be the
+// encoded ones whatever the chunking.
+func c18Streams(c *Ctx) {
+	r := c.Rng.Fork()
+	cases := 12
+	if c.Thorough {
+		cases = 80
+	}
+	for k := 0; k < cases; k++ {
+		n := []int{1, 3, 17, 255, 256, 257, 300, 700}[r.Intn(8)]
+		rs := make(dvid.RLEs, n)
+		for i := range rs {
+			rs[i] = dvid.NewRLE(dvid.Point3d{int32(r.Intn(4000) - 2000), int32(r.Intn(4000) - 2000), int32(r.Intn(4000) - 2000)}, int32(1+r.Intn(500)))
+		}
+		payload, _ := rs.MarshalBinary()
+		var buf bytes.Buffer
+		buf.Write([]byte{0, 3, 0, 0, 0, 0, 0, 0})
+		binary.Write(&buf, binary.LittleEndian, uint32(n))
+		buf.Write(payload)
+		stream := buf.Bytes()
+		want := runsStr(fromRLEs(rs))
+		readers := map[string]func() io.Reader{
+			"bytes.Reader":      func() io.Reader { return bytes.NewReader(stream) },
+			"bufio 4096":        func() io.Reader { return bufio.NewReaderSize(iotest.OneByteReader(bytes.NewReader(stream)), 16) },
+			"bufio over chunks": func() io.Reader { return bufio.NewReader(bytes.NewReader(stream)) },
+			"half reads":        func() io.Reader { return iotest.HalfReader(bytes.NewReader(stream)) },
+			"one byte":          func() io.Reader { return iotest.OneByteReader(bytes.NewReader(stream)) },
+			"data with EOF":     func() io.Reader { return iotest.DataErrReader(bytes.NewReader(stream)) },
+			"pipe 4k+1":         func() io.Reader { return &chunkReader{b: stream, n: 4097} },
+			"pipe 7":            func() io.Reader { return &chunkReader{b: stream, n: 7} },
+		}
+		var names []string
+		for nm := range readers {
+			names = append(names, nm)
+		}
+		sort.Strings(names)
+		for _, nm := range names {
+			got, err := dvid.ReadRLEs(readers[nm]())
+			c.Eval(fmt.Sprintf("stream %d runs via %s", n, nm), nm != "bytes.Reader")
+			c.Count("rle-stream " + nm)
+			if err != nil || runsStr(fromRLEs(got)) != want {
+				first := -1
+				for i := range rs {
+					if err != nil || i >= len(got) || got[i] != rs[i] {
+						first = i
+						break
+					}
+				}
+				c.Report("O", "C18 stream-decode-differs", "a sparse volume decoded from a stream delivered in pieces is not the encoded one",
+					fmt.Sprintf("%d runs, reader: %s, error: %v, first differing run: %d\nstream (hex, first 96 bytes): %s", n, nm, err, first, hx(stream[:min(96, len(stream))])))
+				return
+			}
+		}
+	}
+}
+
+// chunkReader hands out at most n bytes per Read
+type chunkReader struct {
+	b []byte
+	n int
+}
+
+func (c *chunkReader) Read(p []byte) (int, error) {
+	if len(c.b) == 0 {
+		return 0, io.EOF
+	}
+	k := c.n
+	if k > len(p) {
+		k = len(p)
+	}
+	if k > len(c.b) {
+		k = len(c.b)
+	}
+	copy(p, c.b[:k])
+	c.b = c.b[k:]
+	return k, nil
 }
 
 // c18Roi: ROI span sets through the real API: POST roi, POST ptquery, GET mask, VoxelBoundsInside.
